@@ -2,6 +2,7 @@ package checks
 
 import (
 	"fmt"
+	"os"
 	"math/rand"
 
 	"verif/harness/graph"
@@ -164,8 +165,23 @@ func predC03(c *vk.Ctx, o *hubObs) {
 	}
 }
 
+// c03Histories: the promise holds for every handshake of a history, not only for the first: what one mechanism said in an
+// earlier handshake (a CRL that listed the certificate and was replaced since, an OCSP answer that is cached) leaves nothing
+// behind in the other one.
+func c03Histories(c *vk.Ctx) {
+	var cfgs []HubCfg
+	for _, mode := range []string{"unset", "prefer_ocsp", "prefer_crl"} {
+		cfgs = append(cfgs, HubCfg{Mode: mode, Sig: "none", Strict: false, Fetch: "actively", Disk: mode == "prefer_crl", Conf: "none", Ocsp: "good"})
+	}
+	hubFocus(c, cfgs, c.Pick(360, 6000), func(d hubDoc) bool { return d.Signer == "A" && d.Q != "down" && d.Q != "critext" }, RandomShape, predC03)
+}
+
 // C03 — mode composition: the complete one-handshake table.
 func C03(c *vk.Ctx) {
+	if os.Getenv("VERIF_ONLY") == "c03hist" { // debugging aid
+		c03Histories(c)
+		return
+	}
 	var cfgs []HubCfg
 	for _, mode := range []string{"unset", "prefer_ocsp", "prefer_crl", "ocsp_only", "crl_only", "disabled"} {
 		for _, oc := range []string{"noaia", "good", "revoked", "down"} {
@@ -195,9 +211,12 @@ func C03(c *vk.Ctx) {
 			keepDown = 1
 		}
 		pg := pruneDown(g, keepDown, rng)
+		if os.Getenv("VERIF_DEBUG") != "" && ci < 3 {
+			fmt.Fprintf(os.Stderr, "C03DBG ci=%d edges=%d pruned=%d init=%q out=%d\n", ci, len(g.Edges), len(pg.Edges), pg.Init[:min(40, len(pg.Init))], len(pg.Out[pg.Init]))
+		}
 		pg.AllPaths(2, func(p []*graph.Edge) {
-			if len(p) != 2 || c.Violations() > 6 {
-				return
+			if len(p) != 2 || c.Violations() > 6 || opName(p[1]) == "cleanup" {
+				return // (a restart, possibly into another cell of the table, is not a cell)
 			}
 			cp := append([]*graph.Edge(nil), p...)
 			runHubWalk(c, cfg, cp, RandomShape(rng), c.Seed*100000+int64(walks), predC03)
@@ -207,11 +226,15 @@ func C03(c *vk.Ctx) {
 			c.Sample(map[string]any{"cfg": cfg, "cells": len(pg.Edges)})
 		}
 	}
+	if walks < c.Pick(900, 5000) {
+		c.Infra("the mode table was replayed on %d cells only: the check would be vacuous", walks)
+	}
+	c03Histories(c)
 	c.Set("transitions", trans)
-	c.Set("traces_validated_against_impl", int64(walks))
+	c.Add("traces_validated_against_impl", int64(walks))
 	c.Set("exhaustive", c.Thorough())
 	c.Set("spec", "Revocation.tla with CfgSpace = the whole table mode(6) x OCSP outcome(4) x aia_strict(2) x cdp_strict(2) x backend(2), MaxSteps = 2 (Provision; one handshake with every certificate and every document the CDP may serve, plus the chain-less handshake); property ModePromise")
-	c.Set("rule", "a case is one cell: (configuration, certificate, CRL outcome via the served document) executed on a fresh validator; equality of accept/reject with the specification's verdict (the property is an iff), plus touch sets: modes without CRL never fetch a CRL nor create anything in work_dir, modes without OCSP never contact the responder; chain shapes (leaf+root, leaf+intermediate+root, two chains, no chain) rotate by seed")
+	c.Set("rule", "a case is one cell: (configuration, certificate, CRL outcome via the served document) executed on a fresh validator; equality of accept/reject with the specification's verdict (the property is an iff), plus touch sets: modes without CRL never fetch a CRL nor create anything in work_dir, modes without OCSP never contact the responder; chain shapes (leaf+root, leaf+intermediate+root, two chains, no chain) rotate by seed; plus histories (tours of the complete graphs of the prefer_* / unset modes with a responder that says good and CRLs that list and un-list the certificates, OCSP cache on in two worlds of three) judged by the same iff at every handshake")
 	c.Assume("unset mode is rendered by omitting the option; 'unreachable CDP' is mostly a garbage body (fast) and a connection hang-up in a seeded sample of cells (2 s retry loop each)")
 }
 
@@ -240,7 +263,7 @@ func cfgsC01(c *vk.Ctx) []HubCfg {
 
 // C01 — CRL soundness.
 func C01(c *vk.Ctx) {
-	hubCampaign(c, cfgsC01(c), c.Pick(1600, 40000), c.Pick(2, 10), 60, predC01)
+	hubCampaign(c, cfgsC01(c), c.Pick(1600, 40000), allDownEdges, 60, predC01)
 	c.Set("spec", "Revocation.tla: Sound (action property) + Refines/Complete (invariants), complete graph per configuration; every listed property of the module is checked by TLC before the graph is replayed")
 	c.Set("rule", "a case is one edge (state, action incl. the documents served) of a configuration's Revocation graph executed on a real validator; distinct = distinct (cfg, state, action); the violation predicate is: ghost says listed-in-force AND real verdict = accept")
 	c.Assume("document bytes inside a shape class (size/position/serial width/entry extensions/encoding) are seeded samples; the 'big' size class (20 000 entries) is exercised in the thorough tier only")
@@ -258,7 +281,20 @@ func C11(c *vk.Ctx) {
 	if c.Thorough() {
 		cfgs = append(cfgs, cfgsC01(c)...)
 	}
-	hubCampaign(c, cfgs, c.Pick(1600, 40000), c.Pick(2, 10), 60, predC11)
+	hubCampaign(c, cfgs, c.Pick(1600, 40000), allDownEdges, 60, predC11)
+	// the cross-issuer clause: only lists of the issuer itself and of the other CA are served, and the other CA's entries carry
+	// a certificateIssuer entry extension that names the probe's issuer
+	hubFocus(c, []HubCfg{
+		{Mode: "crl_only", Sig: "none", Strict: false, Fetch: "actively", Disk: true, TrustA: false, Conf: "none", Ocsp: "noaia"},
+		{Mode: "crl_only", Sig: "verify_log", Strict: true, Fetch: "actively", Disk: false, TrustA: false, Conf: "url", Ocsp: "noaia"},
+	}, c.Pick(300, 4000), func(d hubDoc) bool {
+		return d.Q != "valid" && d.Q != "critext" || d.Signer == "A" && d.Q == "valid" || d.Signer == "B"
+	},
+		func(rng *rand.Rand) Shape {
+			s := RandomShape(rng)
+			s.Ext = "certissuer"
+			return s
+		}, predC11)
 	c.Set("spec", "Revocation.tla: Precise (action property) + Refines (invariant)")
 	c.Set("rule", "as C01; the violation predicate is: real verdict = revoked AND ghost says not listed in any CRL in force AND OCSP did not say revoked; filler entries of every generated CRL are near misses of the probe serials (off-by-bit, one byte longer/shorter, decimal prefixes) and c3 shares c1's serial under another issuer")
 	c.Assume("64-bit FNV key collisions are out of scope, as the property says")
@@ -283,7 +319,13 @@ func C10(c *vk.Ctx) {
 			}
 		}
 	}
-	hubCampaign(c, cfgs, c.Pick(1600, 40000), c.Pick(4, 30), 60, predC10)
+	hubCampaign(c, cfgs, c.Pick(1600, 40000), allDownEdges, 60, predC10)
+	// a healthy configured CRL next to the distribution point (whose URL differs from the configured one only in letter case or
+	// in the query in two of three worlds): it never stands in for the distribution point's own CRL
+	hubFocus(c, []HubCfg{
+		{Mode: "crl_only", Sig: "verify", Strict: true, Fetch: "actively", Disk: false, TrustA: true, Conf: "url", Ocsp: "noaia"},
+		{Mode: "crl_only", Sig: "none", Strict: true, Fetch: "background", Disk: true, TrustA: false, Conf: "url", Ocsp: "noaia"},
+	}, c.Pick(300, 4000), func(d hubDoc) bool { return d.Signer == "A" || d.Q == "down" || d.Q == "garbage" }, RandomShape, predC10)
 	c.Set("spec", "Revocation.tla: StrictGate, LenientNeverDenies (action properties)")
 	c.Set("rule", "as C01; predicates: strict AND certificate names distribution points AND accepted AND ghost says that CRL is not in force => violation; lenient AND denied AND not listed AND OCSP accepted => violation; CDP sets: http (c1), ldap-only (c3), none (c2)")
 }
@@ -302,7 +344,7 @@ func C16(c *vk.Ctx) {
 				HubCfg{Mode: "prefer_ocsp", Sig: sig, Strict: false, Fetch: "actively", Disk: true, TrustA: false, Conf: "none", Ocsp: "good"})
 		}
 	}
-	hubCampaign(c, cfgs, c.Pick(1200, 40000), c.Pick(1, 10), 60, predC16)
+	hubCampaign(c, cfgs, c.Pick(1200, 40000), allDownEdges, 60, predC16)
 	// restarts that change the policy options (a reload with a stricter mode or without the trusted signer): what the
 	// previous run left on disk must be judged by the new configuration
 	families := [][]HubCfg{
@@ -342,4 +384,37 @@ func C16(c *vk.Ctx) {
 	}
 	c.Set("spec", "Revocation.tla: VerifyNeverInForce (invariant), LenientRefreshWorks (action property), PolicyAccepts used by every intake action with the context table of DESIGN 3.4")
 	c.Set("rule", "as C01; intake paths: provision-time configured CRL (url/file), first CDP fetch, background load, refresh, each also after restart; signer status: resolvable (A in chain / trusted), unknown (sibling key S, foreign CA B), wrong; predicates compare the real verdict with what the policy ghost demands per signature mode")
+}
+
+// ---- C15 (API level): a list that a refresh pass or a background load took in is in force ----------
+func predC15hub(c *vk.Ctx, o *hubObs) {
+	if o.Op[0] != "handshake" || !o.Cfg.CrlOn() || !realDecided(o.Verdict) {
+		return
+	}
+	cert := o.Exp.Cert
+	if !o.Exp.Listed[cert] || o.Verdict != "accept" {
+		return
+	}
+	// which step took the list in, and was there a failed attempt at that location before?
+	by, failedBefore := "", false
+	for _, st := range o.Hist {
+		var op []any
+		jsonUnmarshal(st.Op, &op)
+		var exp hubExpect
+		jsonUnmarshal(st.Expect, &exp)
+		for _, l := range []string{"D", "U"} {
+			if exp.Fetch[l] > 0 {
+				if exp.Inforce[l] {
+					by = fmt.Sprint(op[0])
+				} else if by == "" {
+					failedBefore = true
+				}
+			}
+		}
+	}
+	if by != "refresh" && by != "bgload" {
+		return // taken in by the handshake itself or at Provision: C01 / C16 territory
+	}
+	c.Violation(fmt.Sprintf("pass-took-list-in-but-not-in-force:by=%s:after-failed-attempt=%v:fetch=%s:sig=%s", by, failedBefore, o.Cfg.Fetch, o.Cfg.Sig),
+		fmt.Sprintf("a %s pass fetched an acceptable CRL that lists %s (earlier failed attempt at the location: %v), yet the certificate is accepted afterwards; cfg=%s", by, cert, failedBefore, o.Cfg), hubReplay(o))
 }
